@@ -412,6 +412,43 @@ pub fn run(ctx: &mut Ctx) {
             ("a key and no certificate", write_file(&dir, "bad4.pem", &key_only)),
             ("an empty file", write_file(&dir, "bad5.pem", "")),
         ];
+        // the other way round: a file with a good certificate and no key, named as the key file too (a "combined" file)
+        {
+            let cert_only = {
+                let a = good.find("-----BEGIN CERTIFICATE-----");
+                let b = good.find("-----END CERTIFICATE-----").map(|x| x + "-----END CERTIFICATE-----".len());
+                match (a, b) {
+                    (Some(a), Some(b)) => format!("{}\n", &good[a..b]),
+                    _ => String::new(),
+                }
+            };
+            let path = write_file(&dir, "certonly.pem", &cert_only);
+            for a in 0..4 {
+                let mut names: [Vec<(&str, &str)>; 4] = [vec![("m.example", FIXTURE_PEM)], vec![], vec![], vec![]];
+                names[a].push(("nokey.example", path.as_str()));
+                if build(names.clone()).is_ok() {
+                    ctx.oracle_failure("tls_hosts_validation", &format!("a host in {} whose certificate and key paths name one file that holds a certificate and no key: the TLS host settings were accepted", classes[a]));
+                }
+                let mut t = String::new();
+                for (k, l) in names.iter().enumerate() {
+                    for (n, pem) in l {
+                        t.push_str(&format!("[[{}]]\nhostname = \"{}\"\ncert_chain_path = \"{}\"\nprivate_key_path = \"{}\"\n\n", classes[k], n, pem, pem));
+                    }
+                }
+                if let Ok(hs) = toml::from_str::<TlsHostsSettings>(&t) {
+                    let st = Settings::builder()
+                        .listen_address(("127.0.0.1", 1))
+                        .unwrap()
+                        .listen_protocols(trusttunnel::settings::ListenProtocolSettings { http1: Some(trusttunnel::settings::Http1Settings::builder().build()), http2: None, quic: None })
+                        .build()
+                        .unwrap();
+                    if Core::new(st, None, hs, Shutdown::new()).is_ok() {
+                        ctx.oracle_failure("tls_hosts_validation", &format!("a host in {} whose certificate and key paths name one file without a key (hosts file): the endpoint started", classes[a]));
+                    }
+                }
+                ctx.stat("tls_hosts_unloadable_key");
+            }
+        }
         for (what, path) in &files {
             for a in 0..4 {
                 let mut names: [Vec<(&str, &str)>; 4] = [vec![("m.example", FIXTURE_PEM)], vec![], vec![], vec![]];
